@@ -239,10 +239,11 @@ func (b *BaseStore) InitBaseStore(ipfs coreiface.CoreAPI, identity *identityprov
 	b.index = options.Index(b.Identity().PublicKey)
 	b.muIndex.Unlock()
 
+	// the replicator's load events carry no database address: they must stay on a bus of
+	// their own, not on the bus shared by every store of the instance
 	b.replicator, err = replicator.NewReplicator(b, options.ReplicationConcurrency, &replicator.Options{
-		Logger:   b.logger,
-		EventBus: b.eventBus,
-		Tracer:   b.tracer,
+		Logger: b.logger,
+		Tracer: b.tracer,
 	})
 	if err != nil {
 		return fmt.Errorf("unable to init error: %w", err)
@@ -1038,6 +1039,11 @@ func (b *BaseStore) storeListener(topic iface.PubSubTopic) error {
 			}
 
 			evt := e.(stores.EventWrite)
+			if evt.Address == nil || evt.Address.String() != b.Address().String() {
+				// write on another store sharing this event bus
+				continue
+			}
+
 			go func() {
 				// @TODO(gfanton): HandleEventWrite trigger a
 				// publish that is a blocking call if no peers
